@@ -49,7 +49,7 @@ func hostilePhases(env run.Env) []run.Phase {
 	nb := len(coreList)
 	q := []int{600, 1500, nb + 300, nb + 300, nb, 1500}
 	if env.Thorough {
-		q = []int{20000, 40000, nb + 6000, nb + 6000, nb + 2000, 30000}
+		q = []int{60000, 120000, nb + 18000, nb + 18000, nb + 6000, 90000}
 	}
 	out := make([]run.Phase, hNumPhases)
 	for i := range out {
